@@ -105,18 +105,52 @@ def r2_recording(ctx, prog):
     r = Rule("C03.R2", "null / absent values record (locale -> default_to); whole subkey groups too",
              "the per-key map is the only carrier of fallback information to the generators", floor=5)
     fn = ctx.ast.fn(PV, "merge", impl_self="ParsedValue")
-    t = flatp(show(fn.body)) if fn else ""
-    frags = {
-        "value": "ParsedValue::Default,LocaleValue::Value{defaults:defaults,..}=>{defaults.pushtop_locale,default_to.get_key;Ok}",
-        "subkeys-dummy": "letdummy_keys=default_locale.keys.keys.cloned.map|k|k,ParsedValue::Default.collect;",
-        "subkeys-merge": "dummy_local.mergekeys,top_locale,default_to,key_path,strings,warnings?;locales.pushdummy_local;",
-        "subkeys-marks": "*this=ParsedValue::SubkeysNone;",
-    }
-    for k, frag in frags.items():
-        if has(t, frag):
-            r.inst("ParsedValue::merge#" + k, frag[:90])
-        else:
-            r.viol("R2:ParsedValue::merge#" + k, "merge lost `%s`" % frag[:90], file=PV)
+    if fn is None:
+        r.missing("ParsedValue::merge")
+        return r
+    # abstract evaluation of merge on a null value, against a plain key and against a group of subkeys
+    from rules import absint
+    from rules.absint import AEval, C as K, CF, A, T, L, UNIT
+
+    def S(x):
+        return ("str", x)
+
+    def run_null(keys):
+        log = []
+        dl = CF("Locale", keys=L(T(S("x"), A("vx")), T(S("y"), A("vy"))), name=S("en"), top_locale_name=S("en"))
+        funcs = {k: v for k, v in absint.file_funcs(ctx.ast, PV, impl_self="ParsedValue").items() if k not in ("merge", "reduce")}
+        ev = AEval(funcs=funcs, builtins={
+            "push": lambda rv, a: (log.append(("push", rv, tuple(a))), UNIT)[1],
+            "merge": lambda rv, a: (log.append(("merge", rv, tuple(a))), K("Ok", UNIT))[1],
+            "reduce": lambda rv, a: UNIT, "first": lambda rv, a: K("Some", dl), "unwrap_at": lambda rv, a: rv[2][0],
+            "get_key": lambda rv, a: A("get_key(%s)" % absint.fmt(rv))})
+        v = ev.run_fn(fn, [K("Default"), keys, S("fr"), A("DT"), A("kp"), A("strings"), A("warnings")])
+        return v, log
+
+    def shown(v, log):
+        return "%s; %s" % (v if isinstance(v, str) else absint.fmt(v), [(x[0], absint.fmt(x[1]), [absint.fmt(y) for y in x[2]]) for x in log])
+    v, log = run_null(CF("Value", defaults=A("DEFAULTS"), value=A("VAL")))
+    if v == K("Ok", UNIT) and log == [("push", A("DEFAULTS"), (S("fr"), A("get_key(DT)")))]:
+        r.inst("ParsedValue::merge#value", "null against a plain key: defaults.push(top_locale, default_to.get_key()) and nothing else")
+    else:
+        r.viol("R2:ParsedValue::merge#value", "a null value no longer records (locale -> default_to) on the key: %s" % shown(v, log), file=fn.file, line=fn.line)
+    v, log = run_null(CF("Subkeys", locales=A("LOCALES"), keys=A("KEYS")))
+    dummy = log[0][1] if log else None
+    fields = absint.fields_of(dummy) if dummy and dummy[0] == "ctor" else {}
+    if fields.get("keys") == L(T(S("x"), K("Default")), T(S("y"), K("Default"))) and fields.get("top_locale_name") == S("fr"):
+        r.inst("ParsedValue::merge#subkeys-dummy", "null against a group: a locale with every key of the default group set to null, named after the top locale")
+    else:
+        r.viol("R2:ParsedValue::merge#subkeys-dummy", "a null group is not expanded to one null per key of the default group: %s" % shown(v, log), file=fn.file, line=fn.line)
+    if v == K("Ok", UNIT) and len(log) == 2 and log[0][0] == "merge" and log[0][2] == (A("KEYS"), S("fr"), A("DT"), A("kp"), A("strings"), A("warnings")) \
+            and log[1] == ("push", A("LOCALES"), (dummy,)):
+        r.inst("ParsedValue::merge#subkeys-merge", "that locale is merged with the same top_locale / default_to and pushed to the group's locales")
+    else:
+        r.viol("R2:ParsedValue::merge#subkeys-merge", "the expanded group is not merged with the same default_to and recorded: %s" % shown(v, log), file=fn.file, line=fn.line)
+    t = flatp(show(fn.body))
+    if re.search(r"\*\w+=ParsedValue::SubkeysNone;", t):
+        r.inst("ParsedValue::merge#subkeys-marks", "*this = ParsedValue::Subkeys(None)")
+    else:
+        r.viol("R2:ParsedValue::merge#subkeys-marks", "merge lost `*this = ParsedValue::Subkeys(None)`", file=PV)
     from rules import localemerge
     rows = localemerge.table(ctx)
     okm = bool(rows) and rows[0][1] is not None
@@ -135,14 +169,16 @@ def r2_recording(ctx, prog):
     else:
         r.inst("who calls DefaultedLocales::push", "ParsedValue::merge only")
     fn = ctx.ast.fn(PL, "push", impl_self="DefaultedLocales")
-    if fn is None or flatp(show(fn.body)) != flatp("{self.mapping.insertkey,default_to;}"):
-        r.viol("R2:DefaultedLocales::push", "push does not record key -> default_to", file=PL)
+    ins = []
+    v = AEval(funcs={}, builtins={"insert": lambda rv, a: (ins.append((rv, tuple(a))), K("None"))[1]}).run_fn(fn, [CF("DefaultedLocales", mapping=A("MAPPING")), A("k"), A("d")]) if fn else "missing"
+    if ins != [(A("MAPPING"), (A("k"), A("d")))] or isinstance(v, str):
+        r.viol("R2:DefaultedLocales::push", "push does not record key -> default_to: %s %s" % (v, ins), file=PL)
     else:
         r.inst("DefaultedLocales::push", "mapping.insert(locale, default_to)")
     fn = ctx.ast.fn(PL, "get_key", impl_self="DefaultTo")
-    t = flatp(show(fn.body)) if fn else ""
-    if not has(t, "DefaultTo::Explicitkey|DefaultTo::Implicitkey=>key.clone"):
-        r.viol("R2:DefaultTo::get_key", "get_key must return the carried key for both variants", file=PL)
+    got = [AEval(funcs={}).run_fn(fn, [K(var, A("the-key"))]) for var in ("Explicit", "Implicit")] if fn else []
+    if got != [A("the-key"), A("the-key")]:
+        r.viol("R2:DefaultTo::get_key", "get_key must return the carried key for both variants: %s" % got, file=PL)
     else:
         r.inst("DefaultTo::get_key", "the carried key for both variants")
     return r
@@ -294,11 +330,12 @@ def r5_default_never_defaults(ctx):
     else:
         r.viol("R5:make_locale_value#Default", "a null in the default locale is no longer rejected", file=PV)
     fn = ctx.ast.fn(PL, "make_builder_keys", impl_self="Locale")
-    t = flatp(show(fn.body)) if fn else ""
-    if has(t, "letlocale_value=value.make_locale_value&self.top_locale_name,key_path,strings?;"):
-        r.inst("make_builder_keys", "every key of the default locale goes through make_locale_value")
+    from rules.c07 import builder_keys_table
+    got, want, shown = builder_keys_table(fn) if fn else (None, [], "function not found")
+    if got == want:
+        r.inst("make_builder_keys", "every key of the default locale goes through make_locale_value (abstract evaluation on keys {a, b, c})")
     else:
-        r.viol("R5:make_builder_keys", "keys of the default locale bypass make_locale_value", file=PL)
+        r.viol("R5:make_builder_keys", "keys of the default locale bypass make_locale_value: %s" % (shown,), file=PL)
     return r
 
 
